@@ -155,6 +155,20 @@ def replay(c, out, fmt, int_dtype=False):
         errs.append("hess.second_point")
     if not same(ev.cons(it2.x), fresh.evaluator.cons(it2.x)) or not same(ev.obj_grad(it2.x), fresh.evaluator.obj_grad(it2.x)):
         errs.append("values.second_point")
+    # "for every point": a point outside the variable bounds is mapped like any other (power-of-two image, slacks = projection
+    # of c(x) onto [l,u], exact round trip); only the solver decides what to do with such a start (seed C04-i)
+    for x3 in (np.where(np.isfinite(prob.var_ub), prob.var_ub + 1.75, 6.0), np.where(np.isfinite(prob.var_lb), prob.var_lb - 2.5, -3.0)):
+        xt3, yt3 = tr.transform_sol(x3, y0)
+        if not same(xt3[:x3.size], np.ldexp(x3, np.array(c["vw"]))):
+            errs.append("start.outside_bounds")
+        cx = np.asarray(prob.cons(x3), dtype=float)
+        exp_slack = np.ldexp(np.clip(cx, prob.cons_lb, prob.cons_ub), np.array(c["cw"]))
+        kinds_ineq = [i for i in range(cx.size) if prob.cons_lb[i] != prob.cons_ub[i]]
+        if xt3.size - x3.size == len(kinds_ineq) and not same(xt3[x3.size:], exp_slack[kinds_ineq]):
+            errs.append("start.outside_bounds.slacks")
+        r3 = tr.restore_sol(xt3, yt3, np.zeros(xt3.size))
+        if not same(r3[0], x3) or not same(r3[1], y0):
+            errs.append("restore.outside_bounds")
     return errs
 
 
